@@ -203,6 +203,7 @@ def make_probes(rng, sheets, cells, with_names):
                         ('lit', 3, '3')]),
         ('bin', '+', ('ref', None, 1, 1, False, False), ('lit', 1, '1')),
         ('call', 'SUM', [('rng', None, 1, 1, 2, 2, (False,) * 4)]),
+        ('bin', '*', ('ref', None, 2, 1, False, False), ('lit', 2, '2')),
         ('call', 'CONCAT', [('lit', 'x', '"x"'), ('lit', 'y', '"y"')]),
     ]
     rng.shuffle(member_formulas)
@@ -213,6 +214,17 @@ def make_probes(rng, sheets, cells, with_names):
           (1, 7))
     place(home, ('call', 'SUM', [rg]), 'rect-of-formulas', 'SUM',
           {'bool_in_range'}, (1, 7))
+    # the same block consumed from ANOTHER sheet: the members' unqualified
+    # references still mean the members' own sheet
+    for other in [x for x in sheets if x != home][:2]:
+        qrg = ('rng', home, 10, r0, 10, r0 + 6, (False,) * 4)
+        place(other, ('call', 'COUNTA', [qrg]), 'rect-of-formulas-xsheet',
+              'COUNTA', (), (1, 7))
+        place(other, ('call', 'SUM', [qrg]), 'rect-of-formulas-xsheet',
+              'SUM', (), (1, 7))
+        place(other, ('bin', '+', ('call', 'SUM', [qrg]),
+                      ('ref', None, 1, 1, False, False)),
+              'rect-of-formulas-xsheet', 'SUM+own', (), (1, 7))
     # 7. sparse: more than 100 consecutive blanks inside a row / a column
     home = rng.choice(sheets)
     gap = rng.randint(101, 300)
